@@ -307,6 +307,12 @@ def check_digest(s, rule, req, hdr, user, epoch):
                     return "REMOTE_USER is not the user whose secret verified the response"
                 ok = True
     if not ok:
+        if not h2 and method != b"GET":
+            for u, ha1 in cands:
+                if ref_response(ha1, algo == b"md5-sess", nonce, dp.get(b"nc", b""), dp.get(b"cnonce", b""), qop,
+                                b"GET", dp[b"uri"]) == dp[b"response"].lower():
+                    return ("served although the Digest response is bound to GET, not to the request's own method "
+                            "(and the request is not an extended CONNECT)")
         return "served although the response does not verify (wrong secret, method or URI)"
     if not rule.authorized(user):
         return "served although the rule does not authorize the user"
@@ -343,17 +349,47 @@ def oracle_run_at(line, out):
             r = s.rules[int(f[1])]
             if o != "bad-op" and unhx(o) != ref_nonce(int(f[2]), int(f[3]), r.secret):
                 return (i, "mod_auth_append_nonce differs from the documented nonce format")
-        if f[0] in ("q", "a") and s.cache != "-":
+        if f[0] in ("q", "a", "h") and s.cache != "-":
             # every cached entry is younger than max-age (+ the 8-second cleanup period)
             ma = int(s.cache)
-            for m in re.finditer(r"t=(-?\d+)", o):
+            for m in re.finditer(r"t=(-?\d+)", o.split("|")[-1]):
                 if mono - int(m.group(1)) > max(ma, 0) + 7:
                     return (i, "cache entry older than max-age + cleanup period survives")
-        if f[0] != "q":
+        if f[0] == "q":
+            res = o.split("|")[0]
+            path, target = unhx(f[3]), unhx(f[2])
+            hdr = None if f[4] == "~" else unhx(f[4])
+            method = f[1].encode()
+            ext = f[5] != "0" and f[1] == "CONNECT"
+            tw = lambda x: x.split("|")[0]
+        elif f[0] == "h":
+            # HTTP/2: what the request IS comes from the header list the client sent
+            if o.startswith("h2:"):
+                if o[3:] not in ("400", "405", "431", "501"):
+                    return (i, "HTTP/2 request parser answered with an unexpected status")
+                continue
+            flds = [(unhx(x.split(":")[0]), unhx(x.split(":")[1])) for x in f[2].split(";") if x]
+            meths = [v for k, v in flds if k == b":method"]
+            auths = [v.strip(b" \t") for k, v in flds if k == b"authorization" and v.strip(b" \t")]
+            mo = re.match(r"m=([^,]*),x=(\d),t=([0-9a-f-]*),p=([0-9a-f-]*)/(.*)$", o.split("|")[0])
+            if not mo or len(meths) != 1:
+                return (i, "HTTP/2 request accepted although it does not carry exactly one :method")
+            method = meths[0]
+            if mo.group(1).encode() != method:
+                return (i, "request method is not the :method the client sent")
+            ext = method == b"CONNECT" and (b":protocol", b"websocket") in flds
+            if (mo.group(2) == "1") != ext:
+                return (i, "h2_connect_ext set on a request that is not an extended CONNECT "
+                           "(:protocol without :method CONNECT)")
+            target, path = unhx(mo.group(3)), unhx(mo.group(4))
+            paths = [v for k, v in flds if k == b":path"]
+            if paths and target != paths[0]:
+                return (i, "request-target is not the :path the client sent")
+            hdr = b", ".join(auths) if auths else None
+            res = mo.group(5)
+            tw = lambda x: x.split("|")[0].split("/", 1)[1] if "/" in x.split("|")[0] else "?"
+        else:
             continue
-        res = o.split("|")[0]
-        path, target = unhx(f[3]), unhx(f[2])
-        hdr = None if f[4] == "~" else unhx(f[4])
         rule = s.find_rule(path)
         if rule is None:
             if res != "pass":
@@ -367,7 +403,7 @@ def oracle_run_at(line, out):
                 return (i, "served without an Authorization header")
             user = unhx(res.split(":")[1])
             if twin_outs is not None and len(twin_outs) == len(outs):
-                tres = twin_outs[i].split("|")[0]
+                tres = tw(twin_outs[i])
                 if tres.split(":")[0] != "go":
                     return (i, "the credential cache turns a refused credential into an accepted one "
                                "(refused with %s when auth.cache is off)" % tres.split(":")[0])
@@ -376,7 +412,7 @@ def oracle_run_at(line, out):
             if rule.scheme == "b":
                 v = check_basic(s, rule, hdr, user)
             else:
-                v = check_digest(s, rule, (f[1].encode(), target, f[5] != "0"), hdr, user, epoch)
+                v = check_digest(s, rule, (method, target, ext), hdr, user, epoch)
             if v:
                 return (i, v)
         elif kind not in ("401", "400", "500"):
@@ -420,6 +456,12 @@ def classify(line, out):
         kinds = set()
         for o in out.split(" "):
             r = o.split("|")[0]
+            if r.startswith("m="):
+                kinds.add("h2x" + r[r.index(",x=") + 3])
+                r = r.split("/", 1)[1]
+            elif r.startswith("h2:"):
+                kinds.add(r)
+                continue
             p = r.split(":")
             k = p[0]
             if k == "go":
@@ -490,6 +532,7 @@ class World:
         self.mono = rng.choice([1000, 1001, 1007, 8, 123456])
         self.epoch = rng.choice([1700000000, 1700000123, 4102444800, 900000000])
         self.now_mono, self.now_epoch = self.mono, self.epoch
+        self.h2 = rng.random() < 0.35               # scenario with requests arriving over HTTP/2
 
     def make_file(self):
         rng = self.rng
@@ -749,7 +792,7 @@ class World:
         target = path + (rng.choice([b"", b"", b"?a=b", b"?x=/../y"]))
         if rng.random() < 0.05:
             target = rng.choice([b"/rewritten" + path, path.replace(b"/", b"/./", 1)])   # target_orig ≠ uri.path
-        h2 = 1 if (method == "CONNECT" and rng.random() < 0.7) or rng.random() < 0.03 else 0
+        h2 = 1 if (method == "CONNECT" and rng.random() < 0.7) else 0
         r = rng.random()
         if r < 0.06:
             hdr = None
@@ -787,6 +830,71 @@ class World:
                     b'Digest username="' + u + b'", realm="' + b.realm + b'", nonce="' + nonce + b'", uri="' + path +
                     b'", qop=auth, nc=00000001, cnonce="abc", response="' + resp + b'"')
 
+    def h2_request(self, stats):
+        """an HTTP/2 request as a decoded header list (pseudo-header order permuted, :protocol placed
+        before/after :method for CONNECT and non-CONNECT methods), to go through the real header path"""
+        rng = self.rng
+        if self.rules and rng.random() < 0.92:
+            rule = rng.choice(self.rules)
+            path = rule.pfx + rng.choice([b"", b"/x", b"/deep/y", b"/s/t"])
+        else:
+            path = rng.choice([b"/", b"/pub/x"])
+        rule = None
+        for r in self.rules:
+            if path.startswith(r.pfx):
+                rule = r
+                break
+        method = rng.choice(["GET", "POST", "HEAD", "CONNECT", "CONNECT", "PUT", "OPTIONS", "DELETE"])
+        target = path + rng.choice([b"", b"", b"?a=b"])
+        if rng.random() < 0.05:
+            target = path.replace(b"/", b"/./", 1)            # :path is normalised, the digest uri is not
+        proto = rng.random() < (0.75 if method == "CONNECT" else 0.45)
+        auth = rng.choice([b"example.org", b"Example.ORG:8080", b"h"])
+        if method == "CONNECT" and not proto:
+            pseudo = [(b":method", b"CONNECT"), (b":authority", auth)]
+        else:
+            pseudo = [(b":method", method.encode()), (b":scheme", rng.choice([b"https", b"http"])), (b":path", target),
+                      (b":authority", auth)]
+            if proto:
+                pseudo.insert(rng.randint(0, len(pseudo)), (b":protocol", b"websocket"))
+        if rng.random() < 0.6:
+            rng.shuffle(pseudo)
+        kind = "ok"
+        k = rng.random()
+        if k < 0.03:
+            pseudo.append(rng.choice(pseudo)); kind = "dup"
+        elif k < 0.06:
+            del pseudo[rng.randrange(len(pseudo))]; kind = "missing"
+        elif k < 0.08:
+            pseudo.insert(rng.randint(0, len(pseudo)), (b":protocol", rng.choice([b"h2c", b"Websocket", b"websocket "]))); kind = "proto-val"
+        elif k < 0.10:
+            pseudo.insert(rng.randint(0, len(pseudo)), rng.choice([(b":foo", b"x"), (b":status", b"200"), (b":path", b""), (b"", b"x")])); kind = "bad-pseudo"
+        elif k < 0.12:
+            pseudo = [(kk, rng.choice([b"BREW", b"get", b"PRI"]) if kk == b":method" else vv) for kk, vv in pseudo]; kind = "method"
+        hdr = None
+        r = rng.random()
+        if r < 0.06 or rule is None:
+            pass
+        elif (rule.scheme == "b") != (rng.random() < 0.04):
+            hdr = self.basic_header(stats)
+        else:
+            hdr = self.digest_header(rule, method, target, stats, 1 if proto else 0)
+        regular = []
+        if rng.random() < 0.4:
+            regular.append((b"user-agent", rng.choice([b"x", b"curl/8", b""])))
+        if hdr is not None:
+            if rng.random() < 0.05:
+                hdr = rng.choice([b" ", b"\t", b""]) + hdr + rng.choice([b" ", b"", b"\t "])
+            regular.insert(rng.randint(0, len(regular)), (rng.choice([b"authorization"] * 20 + [b"Authorization"]), hdr))
+        if rng.random() < 0.3:
+            regular.append((rng.choice([b"x-a", b"accept"]), b"1"))
+        fields = pseudo + regular
+        if proto and rng.random() < 0.04 and regular:
+            fields = [x for x in fields if x[0] != b":protocol"] + [(b":protocol", b"websocket")]   # pseudo after regular
+            kind = "late-pseudo"
+        stats["h2:" + kind + (":proto" if proto else "") + (":connect" if method == "CONNECT" else "")] += 1
+        return "h,%d,%s" % (rng.randint(0, 1), ";".join(hx(a) + ":" + hx(b) for a, b in fields))
+
     def scenario(self, nops, stats):
         rng = self.rng
         ops = []
@@ -798,6 +906,10 @@ class World:
                 if c:
                     ops.append(c)
                     continue
+            if self.h2 and 0.30 <= r < 0.75:
+                last = self.h2_request(stats)
+                ops.append(last)
+                continue
             if r < 0.12:
                 ma = 600 if self.cache == "-" else int(self.cache)
                 dt = rng.choice([1, 2, 7, 8, 9, 16, 60, 61, 540, 541, 600, 601, 700, max(ma, 1), ma + 1, ma + 7, ma + 8, ma + 9])
